@@ -247,6 +247,8 @@ def gen_history(rng, length, calpha=CONSTRAINTS, ealpha=EXPRS, balpha=BOOLS, uni
             d.update(e=rng.choice(bv_exprs), v=rng.randrange(16), extra=extra())
         elif op in ("is_true", "is_false"):
             d.update(e=rng.choice(balpha), extra=extra())
+        elif op == "unsat_core":
+            d["extra"] = []
         elif op == "branch":
             if nsolv >= max_solvers:
                 continue
@@ -388,6 +390,27 @@ def judge(uni, ref, d, outcome):
     raise ValueError(op)
 
 
+def judge_core(uni, ref, solver, d, outcome):
+    """C16 on one unsat_core() answer.  `Added to the solver` is read as: a constraint the user added or one the
+    solver currently holds (its own simplified / expansion constraints) - see design_notes/C16.md."""
+    if outcome[0] == "err":
+        return ("crash:" + outcome[1], "unsat_core raised %s: %s" % (outcome[1], outcome[2]))
+    if outcome[0] == "unsat":
+        return ("crash:UnsatError", "unsat_core raised UnsatError")
+    core = outcome[1]
+    sm = ref.satmask(d["s"], [uni.parse(c) for c in d.get("extra", [])])
+    if sm != 0:
+        return None if len(core) == 0 else ("nonempty-on-sat", "core %s although the constraints are satisfiable" % (core,))
+    if not all(isinstance(c, claripy.ast.Base) for c in core):
+        return ("nested-element", "core contains a non-constraint element: %r" % (core,))
+    known = {c.hash() for c in ref.lists[d["s"]]} | {c.hash() for c in solver.constraints}
+    if not all(c.hash() in known for c in core):
+        return ("foreign-element", "core element was never added to / is not held by the solver: %s" % ([str(c) for c in core],))
+    if uni.conj(list(core)) != 0:
+        return ("satisfiable-or-empty-core", "the conjunction of the core %s is satisfiable" % ([str(c) for c in core],))
+    return None
+
+
 def apply_op(uni, solvers, d):
     """execute one op on the real solver objects; returns outcome tuple"""
     from claripy.errors import UnsatError
@@ -424,6 +447,8 @@ def apply_op(uni, solvers, d):
         if op == "branch":
             solvers.append(s.branch())
             return ("ok", len(solvers) - 1)
+        if op == "unsat_core":
+            return ("ok", tuple(s.unsat_core(extra_constraints=ex)))
         raise ValueError(op)
     except UnsatError as e:
         return ("unsat", str(e))
@@ -464,7 +489,7 @@ def run_history(uni, cls, cfg, hist, on_step=None):
             elif d["op"] == "branch" and out[0] == "ok":
                 ref.branch(d["s"])
             outs.append(out)
-            j = judge(uni, ref, d, out)
+            j = judge_core(uni, ref, solvers[d["s"]], d, out) if d["op"] == "unsat_core" else judge(uni, ref, d, out)
             if j:
                 fails.append((k, j[0], j[1]))
             if on_step:
